@@ -26,6 +26,7 @@ from   pyflyby._parse           import (MatchAs, PythonBlock, _is_ast_str,
 from   six                      import reraise
 import sys
 import types
+import unicodedata
 from   typing                   import (Any, Dict, List, Optional, Set, Tuple,
                                         Union)
 
@@ -898,7 +899,12 @@ class _MissingImportFinder:
         if node.name:
             # Python unbinds the name at the end of the handler
             # (``except E as e: ...`` ends with an implicit ``del e``).
-            value = self.scopestack[-1].pop(node.name, None)
+            scope = self.scopestack[-1]
+            value = scope.pop(node.name, None)
+            # (Names stored under it, like 'e.attr', are gone with it.)
+            prefix = node.name + "."
+            for name in [k for k in scope if k.startswith(prefix)]:
+                del scope[name]
             if isinstance(value, _UseChecker):
                 # The handler may not run at all, and then an import that
                 # bound the name before is still what a later read sees:
@@ -1924,7 +1930,11 @@ def find_missing_imports(arg, namespaces):
     namespaces = ScopeStack(namespaces)
     if isinstance(arg, (DottedIdentifier, str)):
         try:
-            arg = DottedIdentifier(arg)
+            if isinstance(arg, str):
+                # Python normalizes identifiers (NFKC) while parsing.
+                arg = DottedIdentifier(unicodedata.normalize("NFKC", arg))
+            else:
+                arg = DottedIdentifier(arg)
         except BadDottedIdentifierError:
             pass
         else:
@@ -1936,7 +1946,12 @@ def find_missing_imports(arg, namespaces):
             else:
                 return []
         # Parse the string into an AST.
-        node = ast.parse(arg, type_comments=True) # may raise SyntaxError
+        try:
+            node = ast.parse(arg, type_comments=True)
+        except SyntaxError:
+            # A comment that only looks like a type comment is a syntax
+            # error with type_comments=True.
+            node = ast.parse(arg) # may raise SyntaxError
         # Get missing imports from AST.
         return _find_missing_imports_in_ast(node, namespaces)
     elif isinstance(arg, PythonBlock):
